@@ -37,6 +37,8 @@ func replay(e *env) {
 			msg = e.replayStale(&c)
 		case "count":
 			msg = e.replayCount(&c)
+		case "rebuilt":
+			msg = e.replayRebuilt(&c)
 		default:
 			fmt.Println("unknown sub-check in replay:", c.Sub)
 			os.Exit(3)
